@@ -256,6 +256,7 @@ PROPS["C02"] = dict(
     stages=[corr_stage("BUFK1", 4000, 8000, feature=feat_buf("C02"), seeds=3, params={"salt": 2})],
 )
 PROPS["C04"] = dict(
+    pre_coq=[lambda: c03_pre_coq()],   # the fixed/default cleaner clauses are about the functions translated from the current source
     rule="C04T: 5 timed scenarios (single consumer, two consumers, closing the slowest, cooldown 0, FixedBufferCleaner) on an INSTRUMENTED build; each "
          "is run plain and then once per (synchronisation point hit by the scenario, k-th hit <= 3) with a delay of 2.5 cooldowns injected there "
          "(delay-bounded schedule sweep); after going quiet for 2 cooldowns + slack the settled Size/Slice must be what the model gives after the "
@@ -874,5 +875,5 @@ PROPS["C10"] = dict(
                " Added (DESIGN 5b): result values and supplier identity in the model (ExclusiveVal): coalesced callers receive the identical outcome of an execution begun after their call; the executed function is the last attacher's; unresolved work => error to every caller; k tracked calls.",
     level_note=_EXCL_NOTE + " Result and function identity of coalesced callers are proved on Model/ExclusiveVal.v (same protocol steps, k tracked calls, "
                "result values, attach numbers); that model is tied to the code through the base model it reuses step for step.",
-    stages=_EXCL_STAGES(),
+    stages=_EXCL_STAGES() + [corr_stage("C10ASYNC", 1500, 20000, validate=False)],
 )
